@@ -5,7 +5,7 @@
 From Coq Require Import QArith List String Bool Reals.
 From Coquelicot Require Import Complex.
 Require Import QG.Sym.Expr QG.Sym.Norm QG.Sym.Mat QG.Sym.Subst.
-Require Import QG.Model.GateModel QG.Proofs.GateRefl QG.Proofs.C07Refl QG.Proofs.C05Refl QG.Proofs.C05Sem QG.Proofs.C04Refl QG.Proofs.C04Sem QG.Gen.GenGates.
+Require Import QG.Model.GateModel QG.Proofs.GateRefl QG.Proofs.C07Refl QG.Proofs.C05Refl QG.Proofs.C05Sem QG.Proofs.C04Refl QG.Proofs.C04Sem QG.Proofs.C04Channel QG.Gen.GenGates.
 Import ListNotations.
 Close Scope Q_scope.
 
@@ -82,9 +82,56 @@ Theorem C04_gate_sets :
 Proof. split; [exact gates_forwarding | exact scaled_noise_gates]. Qed.
 Print Assumptions C04_gate_sets.
 
-(* NOT a theorem here: "the shot average of G rho G^dagger for idle relaxation is the T1/T2 channel". It needs the Gaussian
-   moments E[exp(2 i eps W)] = exp(-2 eps^2 Delta), E[I] = 0, E[I^2] = 1 - exp(-e1^2 Delta); checks/c04.py checks the
-   matrix entries, the two sampler standard deviations and the resulting decay rates exp(-Dt/T1), exp(-Dt/T2). *)
+(* 7. Idle relaxation: the shot average of G rho G^dagger is exactly the T1/T2 channel.
+      Vocabulary (coq/Proofs/C04Channel.v):
+      - gen_relax_paths: the four decision paths (T1 == 0 ?, T2 == 0 ?) of RelaxationFactory.construct, each with the traced
+        matrix rp_G, its two samplers (W = first draw, I = second draw, both np.random.normal(0, std)) and definitions;
+      - Rho = [[a, br + i bi], [br - i bi, d]] over four fresh real variables (values dm_a, dm_br, dm_bi, dm_d);
+      - sample_env p rho0 w i: the environment of one shot: the samples take the values w and i, the traced product
+        variable ep * W follows, everything else (parameters, strengths, standard deviations, rho) as in rho0;
+      - shot_avg E p rho0: the matrix of E (fun w i => entry k l of G rho G^dagger in sample_env p rho0 w i);
+      - gaussian_pair E sW sI: E is linear, E[1] = 1, E[I e^{ikW}] = 0 for all real k (independence and E[I] = 0),
+        E[I^2] = sI^2, E[e^{ikW}] = exp(-k^2 sW^2 / 2)  -- the moments of two independent centred Gaussians with the
+        standard deviations the code passes to its two draws (std_W, std_I: the traced std expressions).  These are the
+        only probability facts used; they are HYPOTHESES of the statement (no Gaussian integral is constructed in Coq);
+      - channel g1 g2 a br bi d = [[a + (1 - e^{-g1}) d, e^{-g2} (br + i bi)], [e^{-g2} (br - i bi), e^{-g1} d]].
+      Statement: (i) on every path the two draws have mean 0, G rho G^dagger equals, for all values of all variables,
+      [[a + i I (e^{-2iu} c - e^{2iu} b) + I^2 d, o e^{2iu} b + i I o d], [o e^{-2iu} c - i I o d, o^2 d]] (u the phase of
+      G[0][0], o the modulus of G[1][1]) and no strength / standard deviation depends on a sample; (ii) every shot
+      environment respects all the tracer's definitions; (iii) the shot average is the channel with g1 = Dt/T1, g2 = Dt/T2
+      (all noise, T2 <= 2 T1 incl. the boundary); g2 = Dt/(2 T1) when T2 == 0 (dephasing off); g1 = 0 when T1 == 0. *)
+Theorem C04_relaxation_channel :
+  forallb (fun p => rp_samplers_ok p && product_ok p && defs_static_ok p) gen_relax_paths = true /\
+  map rp_dec gen_relax_paths = [[false; false]; [false; true]; [true; false]; [true; true]] /\
+  (forall p rho0 w i, In p gen_relax_paths -> respects rho0 (rp_defs p) -> respects (sample_env p rho0 w i) (rp_defs p)) /\
+  (forall E rho0, respects rho0 (rp_defs P00) ->
+     (0 <= rho0 (vi "Dt"))%R -> (0 < rho0 (vi "T1"))%R -> (0 < rho0 (vi "T2"))%R -> (rho0 (vi "T2") <= 2 * rho0 (vi "T1"))%R ->
+     gaussian_pair E (std_W P00 rho0) (std_I P00 rho0) ->
+     shot_avg E P00 rho0 = channel (rho0 (vi "Dt") / rho0 (vi "T1")) (rho0 (vi "Dt") / rho0 (vi "T2")) (dm_a rho0) (dm_br rho0) (dm_bi rho0) (dm_d rho0)) /\
+  (forall E rho0, respects rho0 (rp_defs P01) ->
+     (0 <= rho0 (vi "Dt"))%R -> (0 < rho0 (vi "T1"))%R ->
+     gaussian_pair E (std_W P01 rho0) (std_I P01 rho0) ->
+     shot_avg E P01 rho0 = channel (rho0 (vi "Dt") / rho0 (vi "T1")) (rho0 (vi "Dt") / rho0 (vi "T1") / 2) (dm_a rho0) (dm_br rho0) (dm_bi rho0) (dm_d rho0)) /\
+  (forall E rho0, respects rho0 (rp_defs P10) ->
+     (0 <= rho0 (vi "Dt"))%R -> (0 < rho0 (vi "T2"))%R ->
+     gaussian_pair E (std_W P10 rho0) (std_I P10 rho0) ->
+     shot_avg E P10 rho0 = channel 0 (rho0 (vi "Dt") / rho0 (vi "T2")) (dm_a rho0) (dm_br rho0) (dm_bi rho0) (dm_d rho0)) /\
+  (forall E rho0, respects rho0 (rp_defs P11) ->
+     gaussian_pair E (std_W P11 rho0) (std_I P11 rho0) ->
+     shot_avg E P11 rho0 = channel 0 0 (dm_a rho0) (dm_br rho0) (dm_bi rho0) (dm_d rho0)).
+Proof.
+  split; [exact relax_paths_ok|]. split; [exact relax_decisions|]. split; [exact shot_env_is_run|].
+  split; [exact relaxation_channel_P00|]. split; [exact relaxation_channel_P01|]. split; [exact relaxation_channel_P10|].
+  exact relaxation_channel_P11.
+Qed.
+Print Assumptions C04_relaxation_channel.
+
+(* the hypotheses of the all-noise case are jointly satisfiable (T1 = T2 = 1, Dt = 0: both standard deviations are 0 and
+   the point mass at (0, 0) is the law of the two draws) *)
+Example C04_relaxation_example :
+  exists E rho0, respects rho0 (rp_defs P00) /\ (0 <= rho0 (vi "Dt"))%R /\ (0 < rho0 (vi "T1"))%R /\ (0 < rho0 (vi "T2"))%R /\
+                 (rho0 (vi "T2") <= 2 * rho0 (vi "T1"))%R /\ gaussian_pair E (std_W P00 rho0) (std_I P00 rho0).
+Proof. exact relaxation_channel_hypotheses_satisfiable. Qed.
 
 Example C04_example : v_ed <> v_e1 /\ v_e1 <> v_ep /\ List.length sq_blocks = 5%nat /\ List.length cr_blocks = 10%nat.
 Proof. vm_compute. repeat split; discriminate. Qed.
